@@ -101,7 +101,29 @@ def embCalls (rec : Sec → Except String (List Call)) (env : HdrEnv) (det : Hdr
         | .ok cc => .ok [.sp false, envelopeCall (detOf det chdr), cc]
   else .ok []
 
-/-- `structure(section, fields, writer)`: the calls made on `fields` -/
+/-- `mimeType == "message" && mimeSubType == "rfc822"` -/
+def isMsgOf (i : HInfo) : Bool := i.mimeType == MESSAGE && i.sub == RFC822
+
+/-- the extension data both branches end with: `addDispInfo`, Content-Language, Content-Location -/
+def extCalls (i : HInfo) : List Call := dispCalls i ++ [.str true i.lang, .str true i.loc]
+
+/-- the line count field of `singlePartStructure` (text/* and message/rfc822 only) -/
+def linesCalls (i : HInfo) (body : Bytes) : List Call :=
+  if i.mimeType == TEXT || isMsgOf i then [.num false (countLines body)] else []
+
+/-- the calls of `singlePartStructure` for a part with details `i`, body bytes `body` and the
+    message/rfc822 block `emb` -/
+def singleCalls (i : HInfo) (body : Bytes) (emb : List Call) : List Call :=
+  [.str false i.mimeType, .str false i.sub] ++ addMap false i.params
+    ++ [.str false i.cid, .str false i.desc, .str false i.enc, .num false body.length]
+    ++ emb ++ linesCalls i body ++ [.str true i.md5] ++ extCalls i
+
+/-- the calls of `structure` after `childStructures` for a multipart -/
+def multiTail (i : HInfo) : List Call := [.str false i.sub] ++ addMap true i.params ++ extCalls i
+
+/-- `structure(section, fields, writer)`: the calls made on `fields`.
+    The branch is taken on `len(children) == 0` alone: a message/rfc822 section whose embedded
+    message is a multipart has (hoisted) children and goes through the multipart branch. -/
 def structCalls (env : HdrEnv) (det : HdrDetail) (lit : Bytes) : Nat → Sec → Except String (List Call)
   | 0, _ => .error "fuel"
   | fuel + 1, s =>
@@ -112,26 +134,19 @@ def structCalls (env : HdrEnv) (det : HdrDetail) (lit : Bytes) : Nat → Sec →
       | .error e => .error e
       | .ok hdr =>
         let i := detOf det hdr
-        let ext : List Call := dispCalls i ++ [.str true i.lang, .str true i.loc]
         if cs.length = 0 then
           -- singlePartStructure
           match goSlice lit s.body s.end_ with
           | .error e => .error e
           | .ok body =>
-            let isMsg := i.mimeType == MESSAGE && i.sub == RFC822
-            match embCalls (structCalls env det lit fuel) env det lit s isMsg with
+            match embCalls (structCalls env det lit fuel) env det lit s (isMsgOf i) with
             | .error e => .error e
-            | .ok emb =>
-              let lines : List Call :=
-                if i.mimeType == TEXT || isMsg then [.num false (countLines body)] else []
-              .ok ([.str false i.mimeType, .str false i.sub] ++ addMap false i.params
-                   ++ [.str false i.cid, .str false i.desc, .str false i.enc, .num false body.length]
-                   ++ emb ++ lines ++ [.str true i.md5] ++ ext)
+            | .ok emb => .ok (singleCalls i body emb)
         else
           -- childStructures, then the multipart tail
           match mapE (childCall (structCalls env det lit fuel)) cs with
           | .error e => .error e
-          | .ok kids => .ok (kids ++ [.str false i.sub] ++ addMap true i.params ++ ext)
+          | .ok kids => .ok (kids ++ multiTail i)
 
 /-- `imap.Structure(rfc822.Parse(lit))`: (BODY, BODYSTRUCTURE) -/
 def structureTexts (env : HdrEnv) (det : HdrDetail) (q : Bytes → Bytes) (lit : Bytes) :
